@@ -1,6 +1,6 @@
 SPECIFICATION TraceSpec
 CONSTANTS
-  KINDS = {"netlist", "die", "alloc", "stog", "encode", "legal", "strop", "undef"}
+  KINDS = {"netlist", "die", "alloc", "stog", "encode", "legal", "strop", "undef", "pads"}
   PROBES = {"netlist", "die", "alloc", "stog", "encode", "legal", "strop", "sliver"}
   SCALES = {0, 1, 2, 3, 4}
   MID = 2
